@@ -25,7 +25,12 @@ import (
 //
 //	cfg   broker KIP-890p2 | TV1  x  balancer cooperative-sticky | range (eager)
 //	      (thorough: also without the RequireStableFetchOffsets option, which this
-//	      tree documents as a no-op); transaction timeout 6 s everywhere,
+//	      tree documents as a no-op); transaction timeout 6 s everywhere; plus two
+//	      short-session configurations (KIP-890p2, both balancers): session timeout
+//	      2.5 s and env = the broker holds the EndTxn(commit) of A's first
+//	      (thorough: first | second) committing transaction for 4 s, so that A is
+//	      removed from the group while its transactional offset commit is pending
+//	      and B (five rounds there) inherits the partition inside that window,
 //	sA    member A's script: one or two ROUNDS, each
 //	        PollRecords(n), [think], Begin, Produce one output per polled record,
 //	        [think], Flush, [think], End(TryCommit | TryAbort), [think]
@@ -384,10 +389,11 @@ func genScenario() *netctl.Scenario {
 	}
 }
 
-// GenPlans returns the generated family: quick = 4 configurations x 210 scripts
-// of A x 4 gates (3360) on the default schedule; thorough = 5 configurations x
-// 420 scripts x 2 fins x 5 gates x 2 first rounds of B (42000) on the default
-// schedule, then every single deviation, time-capped.
+// GenPlans returns the generated family: quick = 6 configurations x 210 scripts
+// of A x 4 gates (5040) on the default schedule; thorough = 420 scripts x 2
+// fins x 5 gates x 2 first rounds of B x (5 configurations + 2 short-session
+// configurations x 2 stalled transactions) (75600) on the default schedule,
+// then every single deviation, time-capped.
 //
 // The single deviations are restricted to the sub-family (any configuration,
 // one-round scripts of A, A closing, B created after A's first poll, B plain):
